@@ -1,0 +1,34 @@
+// SPDX-License-Identifier: MIT OR Apache-2.0
+
+//! Verification hooks, only compiled with `--cfg p2panda_p2panda_verif`.
+//!
+//! A "schedule point" is a call to [`point`] placed between two statements whose interleaving
+//! with other threads matters. Without an installed hook it does nothing.
+use std::cell::RefCell;
+
+thread_local! {
+    static POINT_HOOK: RefCell<Option<Box<dyn FnMut(&'static str)>>> = const { RefCell::new(None) };
+}
+
+/// Installs (or clears) the schedule-point hook of the calling thread.
+pub fn set_point_hook(hook: Option<Box<dyn FnMut(&'static str)>>) {
+    POINT_HOOK.with(|h| *h.borrow_mut() = hook);
+}
+
+/// Schedule point. Calls the hook of the current thread, if any.
+pub fn point(label: &'static str) {
+    let _ = POINT_HOOK.try_with(|h| {
+        let taken = match h.try_borrow_mut() {
+            Ok(mut hook) => hook.take(),
+            Err(_) => None,
+        };
+        if let Some(mut f) = taken {
+            f(label);
+            if let Ok(mut hook) = h.try_borrow_mut()
+                && hook.is_none()
+            {
+                *hook = Some(f);
+            }
+        }
+    });
+}
